@@ -1,37 +1,111 @@
 import PestModel.Lemmas.ValidatorTerm
-/-! C06 helper lemmas, part 6: every expression of an accepted grammar evaluates to a definite result. -/
+/-! C06 helper lemmas, part 6: every expression of an accepted grammar evaluates to a definite
+result. Induction on the remaining input, then on the (well-founded) left-recursion graph of
+(rule, skipping) pairs, then on the expression. -/
 namespace PestModel.V
 open PestModel.G PestModel.Ref
 open PestModel.LineCol (Str bLen cLen)
 open PestModel.Views (Tree)
 open PestModel.PS (Atomicity CharSet)
 
+/-- implicit skips run in this mode. -/
+def isNA (m : Atomicity) : Bool := decide (m = .nonAtomic)
+
+theorem valK_of_not_isNA {c : Ctx} {m : Atomicity} {la : Bool} {s : St} (h : isNA m = false) :
+    valK c m la s ≠ .fuel := by
+  rw [valK_atomic c m la s (by simpa [isNA] using h)]; simp
+
+theorem has_eq_lookup (c : Ctx) (nm : String) : c.has nm = (lookup c.rules nm).isSome := by
+  unfold Ctx.has
+  cases hr : c.rule? nm with
+  | none => rw [rule?_none_iff.1 hr]; rfl
+  | some p =>
+    obtain ⟨id, r⟩ := p
+    rw [(lookup_of_rule? hr).1]; rfl
+
+/-- `skipsInside` is the static reading of `bodyMode … = nonAtomic`. -/
+theorem isNA_bodyMode {c : Ctx} {nm : String} {id : Nat} {r : Rule} (hr : c.rule? nm = some (id, r)) (m : Atomicity) :
+    isNA (bodyMode r.name r.ty m) = skipsInside c.rules nm (isNA m) := by
+  have hf : c.rules.find? (·.name = nm) = some r := by
+    have := rule?_map c nm
+    rw [hr] at this
+    exact this.symm
+  obtain ⟨_, _, hname⟩ := lookup_of_rule? hr
+  subst hname
+  unfold skipsInside bodyMode
+  rw [hf]
+  by_cases hn : r.name = "WHITESPACE" ∨ r.name = "COMMENT"
+  · rw [if_pos hn, if_pos hn]
+    split <;> simp [isNA]
+  · rw [if_neg hn, if_neg hn]
+    simp only [Option.map_some]
+    cases hty : r.ty <;> simp [isNA]
+
+theorem skipsInside_ws (rules : List Rule) {nm : String} (h : nm = "WHITESPACE" ∨ nm = "COMMENT") (sk : Bool) :
+    skipsInside rules nm sk = false := by
+  unfold skipsInside
+  rw [if_pos h]
+
 section
 variable {c : Ctx}
 
-/-- One expression, at one level `N` of remaining input. `CTp` singles out the rule names whose
-calls are already known to terminate at this level; `hcross` says what happens when the
-left-recursion check did not look behind a sequence head that matched without consuming. -/
-theorem expr_term (R : String → Prop) (M : Atomicity → Prop) (hK : ∀ m, M m → ∀ la s, valK c m la s ≠ .fuel) (N : Nat)
-    (hlow : ∀ s, mu c s < N → ∀ m, M m → ∀ la e, Base c.extras c.rules R e → val c m la e s ≠ .fuel)
-    (cur : String) (CTp : String → Prop)
-    (hcall : ∀ nm, CTp nm → R nm → ∀ s, mu c s ≤ N → ∀ m, M m → ∀ la, valCa c m la nm s ≠ .fuel)
-    (hcross : ∀ a b, Base c.extras c.rules R a → (∀ n ∈ lm c.extras c.rules cur a, CTp n) →
-      (∃ m la s s' f, val c m la a s = .ok s' f ∧ s'.pos = s.pos) → cross c.rules cur a = false →
-      ∀ n ∈ lm c.extras c.rules cur b, CTp n) :
-    ∀ e, Base c.extras c.rules R e → (∀ n ∈ lm c.extras c.rules cur e, CTp n) →
-      ∀ s, mu c s ≤ N → ∀ m, M m → ∀ la, val c m la e s ≠ .fuel := by
+/-- the hypotheses of the expression induction, at one level `N` of remaining input, inside the body
+of rule `cur` where skipping is `sk`. `CTp` singles out the names whose calls (from a place where
+skipping is `sk`) are already known to terminate at this level, `CT1` the rule references seen so
+far; `cross` says what happens when the left-recursion check did not look behind an expression that
+matched without consuming. -/
+structure Lvl (c : Ctx) (N : Nat) (cur : String) (sk : Bool) (CTp CT1 : String → Prop) : Prop where
+  low : ∀ s, mu c s < N → ∀ m la e, Base c.extras c.rules e → val c m la e s ≠ .fuel
+  lowK : ∀ s, mu c s < N → ∀ m la, valK c m la s ≠ .fuel
+  call : ∀ nm, CTp nm → ∀ s, mu c s ≤ N → ∀ m, isNA m = sk → ∀ la, valCa c m la nm s ≠ .fuel
+  K : (∀ n ∈ wsNames c.rules, CTp n) → ∀ s, mu c s ≤ N → ∀ m, isNA m = sk → ∀ la, valK c m la s ≠ .fuel
+  cross : ∀ a, Base c.extras c.rules a → (∀ n ∈ lm c.extras c.rules cur a, CT1 n) →
+    (∃ m la s s' f, val c m la a s = .ok s' f ∧ s'.pos = s.pos) → cross c.rules cur a = false →
+    ∀ n, CTp n ∧ CT1 n
+
+variable {N : Nat} {cur : String} {sk : Bool} {CTp CT1 : String → Prop}
+
+/-- the implicit skip at level `N`, where the implicit calls are among the known ones. -/
+theorem Lvl.Ksame (H : Lvl c N cur sk CTp CT1) (hws : sk = true → ∀ n ∈ wsNames c.rules, CTp n)
+    {s : St} (hs : mu c s ≤ N) {m : Atomicity} (hm : isNA m = sk) (la : Bool) : valK c m la s ≠ .fuel := by
+  by_cases hsk : sk = true
+  · exact H.K (hws hsk) s hs m hm la
+  · exact valK_of_not_isNA (by rw [hm]; simpa using hsk)
+
+/-- behind an expression: the skip at this level is known, or the expression consumes. -/
+theorem Lvl.kn_or_prog (H : Lvl c N cur sk CTp CT1) {a : Expr} (hb : Base c.extras c.rules a)
+    (hcl1 : ∀ n ∈ lm c.extras c.rules cur a, CT1 n)
+    (hws : V.cross c.rules cur a = true → sk = true → ∀ n ∈ wsNames c.rules, CTp n)
+    (m : Atomicity) (hm : isNA m = sk) (la : Bool) :
+    (∀ s, mu c s ≤ N → valK c m la s ≠ .fuel) ∨ (∀ s s' f, val c m la a s = .ok s' f → s.pos < s'.pos) := by
+  cases hx : V.cross c.rules cur a with
+  | true => exact Or.inl (fun s hs => H.Ksame (hws hx) hs hm la)
+  | false =>
+    by_cases hw : ∃ m la s s' f, val c m la a s = .ok s' f ∧ s'.pos = s.pos
+    · exact Or.inl (fun s hs => H.Ksame (fun _ n _ => (H.cross a hb hcl1 hw hx n).1) hs hm la)
+    · refine Or.inr (fun s s' f h => ?_)
+      have := (val_fwd h).le
+      rcases Nat.lt_or_ge s.pos s'.pos with h1 | h1
+      · exact h1
+      · exact absurd ⟨m, la, s, s', f, h, by omega⟩ hw
+
+set_option maxHeartbeats 800000 in
+/-- one expression at one level. -/
+theorem expr_term (H : Lvl c N cur sk CTp CT1) :
+    ∀ e, Base c.extras c.rules e → (∀ n ∈ lmS c.extras c.rules cur sk e, CTp n) →
+      (∀ n ∈ lm c.extras c.rules cur e, CT1 n) →
+      ∀ s, mu c s ≤ N → ∀ m, isNA m = sk → ∀ la, val c m la e s ≠ .fuel := by
   intro e
   induction e with
-  | str str => intro _ _ s _ m _ la; rw [val_str]; exact lit_ne_fuel _ _ _
-  | insens str => intro _ _ s _ m _ la; rw [val_insens]; exact insensM_ne_fuel _ _ _
-  | range a b => intro _ _ s _ m _ la; rw [val_range]; exact oneChar_ne_fuel _ _ _
+  | str str => intro _ _ _ s _ m _ la; rw [val_str]; exact lit_ne_fuel _ _ _
+  | insens str => intro _ _ _ s _ m _ la; rw [val_insens]; exact insensM_ne_fuel _ _ _
+  | range a b => intro _ _ _ s _ m _ la; rw [val_range]; exact oneChar_ne_fuel _ _ _
   | ident n =>
-    intro hb hcl s hs m hm la
+    intro hb hcl _ s hs m hm la
     rw [val_ident]
-    exact hcall n (hcl n (by simp [lm])) (hb.ids n (by simp [allIdents])) s hs m hm la
+    exact H.call n (hcl n (by simp [lmS])) s hs m hm la
   | peekSlice a b =>
-    intro _ _ s _ m _ la
+    intro _ _ _ s _ m _ la
     rw [val_eq]
     simp only [denoteF]
     split
@@ -40,43 +114,56 @@ theorem expr_term (R : String → Prop) (M : Atomicity → Prop) (hK : ∀ m, M 
       · split <;> simp
     · simp
   | skip strs =>
-    intro _ _ s _ m _ la
+    intro _ _ _ s _ m _ la
     rw [val_skip]
     split <;> simp
-  | pushLiteral str => intro _ _ s _ m _ la; rw [val_pushLiteral]; simp
+  | pushLiteral str => intro _ _ _ s _ m _ la; rw [val_pushLiteral]; simp
   | posPred e ih =>
-    intro hb hcl s hs m hm la
+    intro hb hcl hcl1 s hs m hm la
     rw [val_posPred]
-    have := ih hb.posPred (fun n hn => hcl n (by simpa only [lm] using hn)) s hs m hm true
+    have := ih hb.posPred (fun n hn => hcl n (by simpa only [lmS] using hn))
+      (fun n hn => hcl1 n (by simpa only [lm] using hn)) s hs m hm true
     cases h1 : val c m true e s <;> simp_all
   | negPred e ih =>
-    intro hb hcl s hs m hm la
+    intro hb hcl hcl1 s hs m hm la
     rw [val_negPred]
-    have := ih hb.negPred (fun n hn => hcl n (by simpa only [lm] using hn)) s hs m hm true
+    have := ih hb.negPred (fun n hn => hcl n (by simpa only [lmS] using hn))
+      (fun n hn => hcl1 n (by simpa only [lm] using hn)) s hs m hm true
     cases h1 : val c m true e s <;> simp_all
   | opt e ih =>
-    intro hb hcl s hs m hm la
-    exact opt_term N (fun s hs => ih hb.opt (fun n hn => hcl n (by simpa only [lm] using hn)) s hs m hm la) s hs
+    intro hb hcl hcl1 s hs m hm la
+    exact opt_term N (fun s hs => ih hb.opt (fun n hn => hcl n (by simpa only [lmS] using hn))
+      (fun n hn => hcl1 n (by simpa only [lm] using hn)) s hs m hm la) s hs
   | push e ih =>
-    intro hb _ _ _ _ _ _
+    intro hb _ _ _ _ _ _ _
     exact absurd hb.sf (by simp [SF])
   | nodeTag e t ih =>
-    intro hb hcl s hs m hm la
+    intro hb hcl hcl1 s hs m hm la
     obtain ⟨hbe, hex⟩ := hb.nodeTag
     rw [val_nodeTag]
-    have := ih hbe (fun n hn => hcl n (by simpa only [lm, hex, if_true] using hn)) s hs m hm la
+    have := ih hbe (fun n hn => hcl n (by simpa only [lmS, hex, if_true] using hn))
+      (fun n hn => hcl1 n (by simpa only [lm, hex, if_true] using hn)) s hs m hm la
     cases h1 : val c m la e s <;> simp_all
   | choice a b iha ihb =>
-    intro hb hcl s hs m hm la
+    intro hb hcl hcl1 s hs m hm la
     rw [val_choice]
-    have h1 := iha hb.choice.1 (fun n hn => hcl n (by simp only [lm]; exact List.mem_append_left _ hn)) s hs m hm la
-    have h2 := ihb hb.choice.2 (fun n hn => hcl n (by simp only [lm]; exact List.mem_append_right _ hn)) s hs m hm la
+    have h1 := iha hb.choice.1 (fun n hn => hcl n (by simp only [lmS]; exact List.mem_append_left _ hn))
+      (fun n hn => hcl1 n (by simp only [lm]; exact List.mem_append_left _ hn)) s hs m hm la
+    have h2 := ihb hb.choice.2 (fun n hn => hcl n (by simp only [lmS]; exact List.mem_append_right _ hn))
+      (fun n hn => hcl1 n (by simp only [lm]; exact List.mem_append_right _ hn)) s hs m hm la
     cases h : val c m la a s <;> simp_all
   | seq a b iha ihb =>
-    intro hb hcl s hs m hm la
-    have hcla : ∀ n ∈ lm c.extras c.rules cur a, CTp n := by
+    intro hb hcl hcl1 s hs m hm la
+    have hcla : ∀ n ∈ lmS c.extras c.rules cur sk a, CTp n := by
       intro n hn
       refine hcl n ?_
+      simp only [lmS]
+      split
+      · exact List.mem_append_left _ hn
+      · exact hn
+    have hcl1a : ∀ n ∈ lm c.extras c.rules cur a, CT1 n := by
+      intro n hn
+      refine hcl1 n ?_
       simp only [lm]
       split
       · exact List.mem_append_left _ hn
@@ -85,121 +172,201 @@ theorem expr_term (R : String → Prop) (M : Atomicity → Prop) (hK : ∀ m, M 
     cases h1 : val c m la a s <;> simp only [] <;> try simp
     · rename_i s1 f1
       have f1' := val_fwd h1
+      -- what is known when `a` matched without consuming
+      have hsame : s1.pos = s.pos →
+          (sk = true → ∀ n ∈ wsNames c.rules, CTp n) ∧ (∀ n ∈ lmS c.extras c.rules cur sk b, CTp n) ∧
+            (∀ n ∈ lm c.extras c.rules cur b, CT1 n) := by
+        intro hp
+        cases hx : V.cross c.rules cur a with
+        | true =>
+          refine ⟨fun hsk n hn => hcl n ?_, fun n hn => hcl n ?_, fun n hn => hcl1 n ?_⟩
+          · simp only [lmS, hx, if_true, hsk]
+            exact List.mem_append_right _ (List.mem_append_left _ hn)
+          · simp only [lmS, hx, if_true]
+            exact List.mem_append_right _ (List.mem_append_right _ hn)
+          · simp only [lm, hx, if_true]
+            exact List.mem_append_right _ hn
+        | false =>
+          have := H.cross a hb.seq.1 hcl1a ⟨m, la, s, s1, f1, h1, hp⟩ hx
+          exact ⟨fun _ n _ => (this n).1, fun n _ => (this n).1, fun n _ => (this n).2⟩
       cases h2 : valK c m la s1 <;> simp only [] <;> try simp
       · rename_i s2 f2
         have f2' := valK_fwd h2
         cases h3 : val c m la b s2 <;> simp only [] <;> try simp
         have hfw := f1'.trans f2'
         by_cases hpos : s.pos < s2.pos
-        · exact hlow s2 (by have := hfw.mu_lt hpos; omega) m hm la b hb.seq.2 h3
+        · exact H.low s2 (by have := hfw.mu_lt hpos; omega) m la b hb.seq.2 h3
         · have hle1 := f1'.le
           have hle2 := f2'.le
-          have hclb : ∀ n ∈ lm c.extras c.rules cur b, CTp n := by
-            cases hx : cross c.rules cur a with
-            | true =>
-              intro n hn
-              refine hcl n ?_
-              simp only [lm, hx, if_true]
-              exact List.mem_append_right _ hn
-            | false =>
-              exact hcross a b hb.seq.1 hcla ⟨m, la, s, s1, f1, h1, by omega⟩ hx
-          exact ihb hb.seq.2 hclb s2 (by have := hfw.mu_le; omega) m hm la h3
-      · exact absurd h2 (hK m hm la s1)
-    · exact absurd h1 (iha hb.seq.1 hcla s hs m hm la)
+          have hS := hsame (by omega)
+          exact ihb hb.seq.2 hS.2.1 hS.2.2 s2 (by have := hfw.mu_le; omega) m hm la h3
+      · by_cases hpos : s.pos < s1.pos
+        · exact absurd h2 (H.lowK s1 (by have := f1'.mu_lt hpos; omega) m la)
+        · have hle1 := f1'.le
+          have hS := hsame (by omega)
+          exact absurd h2 (H.Ksame hS.1 (by have := f1'.mu_le; omega) hm la)
+    · exact absurd h1 (iha hb.seq.1 hcla hcl1a s hs m hm la)
   | rep e ih =>
-    intro hb hcl s hs m hm la
+    intro hb hcl hcl1 s hs m hm la
     exact rep_term N hb.rep.2
-      (fun s hs => ih hb.rep.1 (fun n hn => hcl n (by simpa only [lm] using hn)) s hs m hm la) (hK m hm la) s hs
+      (fun s hs => ih hb.rep.1 (fun n hn => hcl n (by simpa only [lmS] using hn))
+        (fun n hn => hcl1 n (by simpa only [lm] using hn)) s hs m hm la)
+      (fun s hs => H.lowK s hs m la) s hs
   | repOnce e ih =>
-    intro hb hcl s hs m hm la
+    intro hb hcl hcl1 s hs m hm la
     have he : ∀ s, mu c s ≤ N → val c m la e s ≠ .fuel :=
-      fun s hs => ih hb.repOnce.1 (fun n hn => hcl n (by simpa only [lm] using hn)) s hs m hm la
+      fun s hs => ih hb.repOnce.1 (fun n hn => hcl n (by simpa only [lmS] using hn))
+        (fun n hn => hcl1 n (by simpa only [lm] using hn)) s hs m hm la
+    have hKlow : ∀ s, mu c s < N → valK c m la s ≠ .fuel := fun s hs => H.lowK s hs m la
     rw [val_repOnce]
     split
     · cases h1 : val c m la e s <;> simp only [] <;> try simp
       · rename_i s1 f1
-        have := (val_fwd h1).mu_le
-        exact valL_term N hb.repOnce.2 he (hK m hm la) N s1 f1 (by omega) (Nat.le_refl _)
+        have := (val_fwd h1).mu_lt (prog_progress hb.repOnce.2 _ _ _ _ _ h1)
+        exact valL_term N hb.repOnce.2 he hKlow (mu c s1) s1 f1 (Nat.le_refl _) (by omega)
       · exact absurd h1 (he s hs)
-    · exact seqlist_term N (hK m hm la) [e, .rep e] _
+    · exact seqlist_term2 N hKlow e [.rep e] _ he (prog_progress hb.repOnce.2 m la)
         (by
-          intro x hx
-          simp only [List.mem_cons, List.not_mem_nil, or_false] at hx
-          rcases hx with rfl | rfl
-          · exact he
-          · exact rep_term N hb.repOnce.2 he (hK m hm la))
+          intro y hy s hs
+          simp only [List.mem_cons, List.not_mem_nil, or_false] at hy
+          subst hy
+          exact rep_term N hb.repOnce.2 he hKlow s (by omega))
         rfl s hs
-  | repExact e k ih =>
-    intro hb hcl s hs m hm la
-    have he : ∀ s, mu c s ≤ N → val c m la e s ≠ .fuel :=
-      fun s hs => ih hb.repExact (fun n hn => hcl n (by simpa only [lm] using hn)) s hs m hm la
-    rw [val_repExact]
-    split
-    · rename_i u hu
-      refine seqlist_term N (hK m hm la) _ u ?_ hu s hs
-      intro x hx
-      rw [List.eq_of_mem_replicate hx]; exact he
-    · simp
   | repMin e k ih =>
-    intro hb hcl s hs m hm la
+    intro hb hcl hcl1 s hs m hm la
     have he : ∀ s, mu c s ≤ N → val c m la e s ≠ .fuel :=
-      fun s hs => ih hb.repMin.1 (fun n hn => hcl n (by simpa only [lm] using hn)) s hs m hm la
+      fun s hs => ih hb.repMin.1 (fun n hn => hcl n (by simpa only [lmS] using hn))
+        (fun n hn => hcl1 n (by simpa only [lm] using hn)) s hs m hm la
+    have hKlow : ∀ s, mu c s < N → valK c m la s ≠ .fuel := fun s hs => H.lowK s hs m la
+    have hrep := rep_term N hb.repMin.2 he hKlow
     rw [val_repMin]
     split
     · rename_i u hu
-      refine seqlist_term N (hK m hm la) _ u ?_ hu s hs
-      intro x hx
-      simp only [List.mem_append, List.mem_singleton] at hx
-      rcases hx with hx | rfl
-      · rw [List.eq_of_mem_replicate hx]; exact he
-      · exact rep_term N hb.repMin.2 he (hK m hm la)
+      cases k with
+      | zero =>
+        simp only [List.replicate_zero, List.nil_append, seqOfList, Option.some.injEq] at hu
+        subst hu
+        exact hrep s hs
+      | succ k' =>
+        rw [List.replicate_succ, List.cons_append] at hu
+        refine seqlist_term2 N hKlow e _ u he (prog_progress hb.repMin.2 m la) ?_ hu s hs
+        intro y hy s hs
+        simp only [List.mem_append, List.mem_singleton] at hy
+        rcases hy with hy | rfl
+        · rw [List.eq_of_mem_replicate hy]; exact he s (by omega)
+        · exact hrep s (by omega)
+    · simp
+  | repExact e k ih =>
+    intro hb hcl hcl1 s hs m hm la
+    have hcle : ∀ n ∈ lmS c.extras c.rules cur sk e, CTp n :=
+      fun n hn => hcl n (by simp only [lmS]; exact List.mem_append_left _ hn)
+    have hcl1e : ∀ n ∈ lm c.extras c.rules cur e, CT1 n := fun n hn => hcl1 n (by simpa only [lm] using hn)
+    have he : ∀ s, mu c s ≤ N → val c m la e s ≠ .fuel := fun s hs => ih hb.repExact hcle hcl1e s hs m hm la
+    rw [val_repExact]
+    split
+    · rename_i u hu
+      by_cases hk : 2 ≤ k
+      · have hws : V.cross c.rules cur e = true → sk = true → ∀ n ∈ wsNames c.rules, CTp n := by
+          intro hx hsk n hn
+          refine hcl n ?_
+          simp only [lmS]
+          refine List.mem_append_right _ ?_
+          rw [if_pos (by simp [hk, hx, hsk])]
+          exact hn
+        rcases H.kn_or_prog hb.repExact hcl1e hws m hm la with hKN | hP
+        · exact seqlist_term N _ u (fun _ => hKN)
+            (fun x hx => by rw [List.eq_of_mem_replicate hx]; exact he) hu s hs
+        · obtain ⟨k', rfl⟩ : ∃ k', k = k' + 1 := ⟨k - 1, by omega⟩
+          rw [List.replicate_succ] at hu
+          exact seqlist_term2 N (fun s hs => H.lowK s hs m la) e _ u he hP
+            (fun y hy s hs => by rw [List.eq_of_mem_replicate hy]; exact he s (by omega)) hu s hs
+      · exact seqlist_term N _ u (fun h2 => by simp only [List.length_replicate] at h2; omega)
+          (fun x hx => by rw [List.eq_of_mem_replicate hx]; exact he) hu s hs
     · simp
   | repMax e k ih =>
-    intro hb hcl s hs m hm la
-    have he : ∀ s, mu c s ≤ N → val c m la e s ≠ .fuel :=
-      fun s hs => ih hb.repMax (fun n hn => hcl n (by simpa only [lm] using hn)) s hs m hm la
+    intro hb hcl hcl1 s hs m hm la
+    have hcle : ∀ n ∈ lmS c.extras c.rules cur sk e, CTp n :=
+      fun n hn => hcl n (by simp only [lmS]; exact List.mem_append_left _ hn)
+    have hcl1e : ∀ n ∈ lm c.extras c.rules cur e, CT1 n := fun n hn => hcl1 n (by simpa only [lm] using hn)
+    have he : ∀ s, mu c s ≤ N → val c m la e s ≠ .fuel := fun s hs => ih hb.repMax hcle hcl1e s hs m hm la
     rw [val_repMax]
     split
     · rename_i u hu
-      refine seqlist_term N (hK m hm la) _ u ?_ hu s hs
-      intro x hx
-      rw [List.eq_of_mem_replicate hx]; exact opt_term N he
+      refine seqlist_term N _ u ?_ (fun x hx => by rw [List.eq_of_mem_replicate hx]; exact opt_term N he) hu s hs
+      intro h2 s hs
+      simp only [List.length_replicate] at h2
+      refine H.Ksame ?_ hs hm la
+      intro hsk n hn
+      refine hcl n ?_
+      simp only [lmS]
+      refine List.mem_append_right _ ?_
+      rw [if_pos (by simp [h2, hsk])]
+      exact hn
     · simp
   | repMinMax e lo hi ih =>
-    intro hb hcl s hs m hm la
-    have he : ∀ s, mu c s ≤ N → val c m la e s ≠ .fuel :=
-      fun s hs => ih hb.repMinMax (fun n hn => hcl n (by simpa only [lm] using hn)) s hs m hm la
-    rw [val_repMinMax]
-    split
-    · rename_i u hu
-      refine seqlist_term N (hK m hm la) _ u ?_ hu s hs
+    intro hb hcl hcl1 s hs m hm la
+    have hcle : ∀ n ∈ lmS c.extras c.rules cur sk e, CTp n :=
+      fun n hn => hcl n (by simp only [lmS]; exact List.mem_append_left _ hn)
+    have hcl1e : ∀ n ∈ lm c.extras c.rules cur e, CT1 n := fun n hn => hcl1 n (by simpa only [lm] using hn)
+    have he : ∀ s, mu c s ≤ N → val c m la e s ≠ .fuel := fun s hs => ih hb.repMinMax hcle hcl1e s hs m hm la
+    have hel : ∀ x ∈ (List.range hi).map (fun i => if i + 1 ≤ lo then e else Expr.opt e),
+        ∀ s, mu c s ≤ N → val c m la x s ≠ .fuel := by
       intro x hx
       simp only [List.mem_map] at hx
       obtain ⟨i, _, rfl⟩ := hx
       split
       · exact he
       · exact opt_term N he
+    rw [val_repMinMax]
+    split
+    · rename_i u hu
+      by_cases hk : 2 ≤ hi
+      · by_cases hlo : lo = 0
+        · refine seqlist_term N _ u ?_ hel hu s hs
+          intro _ s hs
+          refine H.Ksame ?_ hs hm la
+          intro hsk n hn
+          refine hcl n ?_
+          simp only [lmS]
+          refine List.mem_append_right _ ?_
+          rw [if_pos (by simp [hk, hlo, hsk])]
+          exact hn
+        · have hws : V.cross c.rules cur e = true → sk = true → ∀ n ∈ wsNames c.rules, CTp n := by
+            intro hx hsk n hn
+            refine hcl n ?_
+            simp only [lmS]
+            refine List.mem_append_right _ ?_
+            rw [if_pos (by simp [hk, hx, hsk])]
+            exact hn
+          rcases H.kn_or_prog hb.repMinMax hcl1e hws m hm la with hKN | hP
+          · exact seqlist_term N _ u (fun _ => hKN) hel hu s hs
+          · obtain ⟨k', rfl⟩ : ∃ k', hi = k' + 1 := ⟨hi - 1, by omega⟩
+            rw [List.range_succ_eq_map, List.map_cons] at hu hel
+            have h0 : (if 0 + 1 ≤ lo then e else Expr.opt e) = e := by rw [if_pos (by omega)]
+            rw [h0] at hu hel
+            exact seqlist_term2 N (fun s hs => H.lowK s hs m la) e _ u he hP
+              (fun y hy s hs => hel y (List.mem_cons_of_mem _ hy) s (by omega)) hu s hs
+      · exact seqlist_term N _ u (fun h2 => by simp only [List.length_map, List.length_range] at h2; omega)
+          hel hu s hs
     · simp
 
-/-- what the validator establishes about a grammar; `R` is a set of rule names closed under
-"mentioned in the body of". -/
-structure Accepted (c : Ctx) (R : String → Prop) : Prop where
+/-- what the validator establishes about a grammar. -/
+structure Accepted (c : Ctx) : Prop where
   sfAll : ∀ r ∈ c.rules, SF r.expr = true
   tagAll : ∀ r ∈ c.rules, TagOK c.extras r.expr = true
-  bodies : ∀ n body, lookup c.rules n = some body → R n → Base c.extras c.rules R body
+  bodies : ∀ n body, lookup c.rules n = some body → Base c.extras c.rules body
   lr : leftRecursion c.extras c.rules = []
+  wsProg : ∀ r ∈ c.rules, (r.name = "WHITESPACE" ∨ r.name = "COMMENT") → Prog c.rules r.expr
 
-variable {R : String → Prop}
-
-theorem Accepted.hnc (h : Accepted c R) : ∀ id body, lookup c.rules id = some body → ¬ CReach c.extras c.rules id body id :=
+theorem Accepted.hnc (h : Accepted c) : ∀ id body, lookup c.rules id = some body → ¬ CReach c.extras c.rules id body id :=
   fun _ _ hl => no_cycle h.lr (fun _ hn => ⟨_, hl, hn⟩)
 
-/-- a sequence head that the check did not look behind consumes when it matches. -/
-theorem cross_false_progress (h : Accepted c R) {cur : String} {a : Expr} (hb : Base c.extras c.rules R a)
-    (hcl : ∀ n ∈ lm c.extras c.rules cur a, E c.extras c.rules cur n) (hx : cross c.rules cur a = false)
+/-- an expression that the check did not look behind consumes when it matches. -/
+theorem cross_false_progress (h : Accepted c) {cur : String} {a : Expr} (hb : Base c.extras c.rules a)
+    (hcl : ∀ n ∈ lm c.extras c.rules cur a, E c.extras c.rules cur n) (hx : V.cross c.rules cur a = false)
     {m la s s' f} (hv : val c m la a s = .ok s' f) : s.pos < s'.pos := by
   have hnp : isNonProgressing c.rules (fuelFor c.rules a) a [cur] = false := by
-    unfold cross at hx
+    unfold V.cross at hx
     simp only [Bool.or_eq_false_iff] at hx
     exact hx.2
   rcases np_false_cases c.extras c.rules h.sfAll h.tagAll h.hnc
@@ -209,60 +376,115 @@ theorem cross_false_progress (h : Accepted c R) {cur : String} {a : Expr} (hb : 
     subst hid
     exact absurd hr (no_cycle h.lr hcl)
 
-variable (M : Atomicity → Prop)
-  (hM : ∀ nm id r, R nm → c.rule? nm = some (id, r) → ∀ m, M m → M (bodyMode r.name r.ty m))
-  (hK : ∀ m, M m → ∀ la s, valK c m la s ≠ .fuel)
+/-- calls of `WHITESPACE`/`COMMENT` from the implicit skipping consume. -/
+theorem ws_progress (h : Accepted c) {nm : String} (hn : nm = "WHITESPACE" ∨ nm = "COMMENT") (la : Bool) :
+    ∀ s s' f, valCa c .nonAtomic la nm s = .ok s' f → s.pos < s'.pos := by
+  intro s s' f hv
+  cases hr : c.rule? nm with
+  | none =>
+    rw [valCa_unfold, hr] at hv
+    refine builtin_progress ?_ ?_ ?_ hv
+    · rcases hn with rfl | rfl <;> decide
+    · rcases hn with rfl | rfl <;> decide
+    · rcases hn with rfl | rfl <;> decide
+  | some p =>
+    obtain ⟨id, r⟩ := p
+    obtain ⟨hl, hmem, hname⟩ := lookup_of_rule? hr
+    rw [valCa_unfold, hr] at hv
+    simp only [] at hv
+    cases h1 : val c (bodyMode r.name r.ty .nonAtomic) la r.expr s <;> simp [h1] at hv
+    have := prog_progress (h.wsProg r hmem (hname ▸ hn)) _ _ _ _ _ h1
+    split at hv <;> simp at hv <;> (rw [← hv.1]; exact this)
 
-include hM hK in
-/-- all rule calls at level `N`. -/
-theorem calls_term_level (h : Accepted c R) (N : Nat)
-    (hlow : ∀ s, mu c s < N → ∀ m, M m → ∀ la e, Base c.extras c.rules R e → val c m la e s ≠ .fuel) :
-    ∀ nm, R nm → ∀ s, mu c s ≤ N → ∀ m, M m → ∀ la, valCa c m la nm s ≠ .fuel := by
-  intro nm
-  induction acc_all h.lr nm with
-  | intro nm _ ih =>
-    intro hR s hs m hm la
+theorem mem_wsNames_of_has {nm : String} (hn : nm = "WHITESPACE" ∨ nm = "COMMENT") (hh : c.has nm = true) :
+    nm ∈ wsNames c.rules := by
+  rw [has_eq_lookup] at hh
+  unfold wsNames
+  rcases hn with rfl | rfl
+  · exact List.mem_append_left _ (by rw [if_pos hh]; simp)
+  · exact List.mem_append_right _ (by rw [if_pos hh]; simp)
+
+/-- all rule calls at level `N`: the pair `p` is (rule, skipping inside it). -/
+theorem calls_term_level (h : Accepted c) (N : Nat)
+    (hlow : ∀ s, mu c s < N → ∀ m la e, Base c.extras c.rules e → val c m la e s ≠ .fuel)
+    (hlowK : ∀ s, mu c s < N → ∀ m la, valK c m la s ≠ .fuel) :
+    ∀ p : Key, ∀ s, mu c s ≤ N → ∀ m la, skipsInside c.rules p.1 (isNA m) = p.2 → valCa c m la p.1 s ≠ .fuel := by
+  intro p
+  induction acc_all h.lr p with
+  | intro p _ ih =>
+    intro s hs m la hp
     rw [valCa_unfold]
-    cases hr : c.rule? nm with
+    cases hr : c.rule? p.1 with
     | none => exact builtin_ne_fuel _ _ _ _ _
-    | some p =>
-      obtain ⟨id, r⟩ := p
+    | some q =>
+      obtain ⟨id, r⟩ := q
       obtain ⟨hl, hmem, hname⟩ := lookup_of_rule? hr
-      have key : val c (bodyMode r.name r.ty m) la r.expr s ≠ .fuel := by
-        refine expr_term R M hK N hlow nm (E c.extras c.rules nm) ?_ ?_ r.expr (h.bodies nm r.expr hl hR)
-          (fun n hn => ⟨_, hl, hn⟩) s hs _ (hM nm id r hR hr m hm) la
-        · intro n hE hRn
-          exact ih n hE hRn
-        · intro a b hb hcl ⟨m', la', s0, s1, f1, hv, hpos⟩ hx
-          have := cross_false_progress h hb hcl hx hv
-          omega
+      have hmode : isNA (bodyMode r.name r.ty m) = p.2 := by rw [isNA_bodyMode hr, hp]
+      have hcallK : ∀ nm, nm = "WHITESPACE" ∨ nm = "COMMENT" → p.2 = true →
+          (∀ n ∈ wsNames c.rules, ES c.extras c.rules p.1 p.2 n) → c.has nm = true →
+          ∀ la s, mu c s ≤ N → valCa c .nonAtomic la nm s ≠ .fuel := by
+        intro nm hn hsk hws hh la s hs
+        refine ih (key c.rules p.2 nm) ⟨nm, hws nm (mem_wsNames_of_has hn hh), rfl⟩ s hs .nonAtomic la ?_
+        simp only [isNA, decide_true, hsk]
+      have H : Lvl c N p.1 p.2 (ES c.extras c.rules p.1 p.2) (E c.extras c.rules p.1) :=
+        { low := hlow
+          lowK := hlowK
+          call := fun nm hE s hs m' hm' la' =>
+            ih (key c.rules p.2 nm) ⟨nm, hE, rfl⟩ s hs m' la' (by show skipsInside c.rules nm (isNA m') = skipsInside c.rules nm p.2; rw [hm'])
+          K := fun hws s hs m' hm' la' => by
+            by_cases hsk : p.2 = true
+            · exact valK_level N (hcallK _ (Or.inl rfl) hsk hws) (ws_progress h (Or.inl rfl))
+                (hcallK _ (Or.inr rfl) hsk hws) (ws_progress h (Or.inr rfl)) s hs m' la'
+            · exact valK_of_not_isNA (by rw [hm']; simpa using hsk)
+          cross := fun a hb hcl hw hx => by
+            obtain ⟨m', la', s0, s1, f1, hv, hpos⟩ := hw
+            have := cross_false_progress h hb hcl hx hv
+            omega }
+      have hkey : val c (bodyMode r.name r.ty m) la r.expr s ≠ .fuel :=
+        expr_term H r.expr (h.bodies _ _ hl) (fun n hn => ⟨_, hl, hn⟩) (fun n hn => ⟨_, hl, hn⟩) s hs _ hmode la
       simp only []
       cases h1 : val c (bodyMode r.name r.ty m) la r.expr s <;> simp only [] <;> try simp
       · split <;> simp
-      · exact absurd h1 key
+      · exact absurd h1 hkey
 
-include hM hK in
-theorem expr_term_level (h : Accepted c R) (N : Nat)
-    (hlow : ∀ s, mu c s < N → ∀ m, M m → ∀ la e, Base c.extras c.rules R e → val c m la e s ≠ .fuel) :
-    ∀ s, mu c s ≤ N → ∀ m, M m → ∀ la e, Base c.extras c.rules R e → val c m la e s ≠ .fuel := by
-  intro s hs m hm la e hb
-  exact expr_term R M hK N hlow "" (fun _ => True)
-    (fun nm _ hR => calls_term_level M hM hK h N hlow nm hR)
-    (fun _ _ _ _ _ _ _ _ => trivial) e hb (fun _ _ => trivial) s hs m hm la
+/-- everything at level `N`, from the levels below. -/
+theorem level_step (h : Accepted c) (N : Nat)
+    (hlow : ∀ s, mu c s < N → ∀ m la e, Base c.extras c.rules e → val c m la e s ≠ .fuel)
+    (hlowK : ∀ s, mu c s < N → ∀ m la, valK c m la s ≠ .fuel) :
+    (∀ s, mu c s ≤ N → ∀ m la e, Base c.extras c.rules e → val c m la e s ≠ .fuel) ∧
+    (∀ s, mu c s ≤ N → ∀ m la, valK c m la s ≠ .fuel) := by
+  have hcalls := calls_term_level h N hlow hlowK
+  have hKN : ∀ s, mu c s ≤ N → ∀ m la, valK c m la s ≠ .fuel :=
+    valK_level N
+      (fun _ la s hs => hcalls ("WHITESPACE", false) s hs .nonAtomic la (skipsInside_ws _ (Or.inl rfl) _))
+      (ws_progress h (Or.inl rfl))
+      (fun _ la s hs => hcalls ("COMMENT", false) s hs .nonAtomic la (skipsInside_ws _ (Or.inr rfl) _))
+      (ws_progress h (Or.inr rfl))
+  refine ⟨?_, hKN⟩
+  intro s hs m la e hb
+  have H : Lvl c N "" (isNA m) (fun _ => True) (fun _ => True) :=
+    { low := hlow
+      lowK := hlowK
+      call := fun nm _ s hs m' _ la' => hcalls (nm, skipsInside c.rules nm (isNA m')) s hs m' la' rfl
+      K := fun _ s hs m' _ la' => hKN s hs m' la'
+      cross := fun _ _ _ _ _ _ => ⟨trivial, trivial⟩ }
+  exact expr_term H e hb (fun _ _ => trivial) (fun _ _ => trivial) s hs m rfl la
 
-include hM hK in
-theorem expr_term_all (h : Accepted c R) :
-    ∀ N s, mu c s ≤ N → ∀ m, M m → ∀ la e, Base c.extras c.rules R e → val c m la e s ≠ .fuel := by
+theorem level_all (h : Accepted c) : ∀ N,
+    (∀ s, mu c s ≤ N → ∀ m la e, Base c.extras c.rules e → val c m la e s ≠ .fuel) ∧
+    (∀ s, mu c s ≤ N → ∀ m la, valK c m la s ≠ .fuel) := by
   intro N
   induction N with
-  | zero => exact expr_term_level M hM hK h 0 (fun s hs => by omega)
-  | succ N ih => exact expr_term_level M hM hK h (N + 1) (fun s hs => ih s (by omega))
+  | zero => exact level_step h 0 (fun s hs => by omega) (fun s hs => by omega)
+  | succ N ih => exact level_step h (N + 1) (fun s hs => ih.1 s (by omega)) (fun s hs => ih.2 s (by omega))
 
-include hM hK in
-theorem calls_term_all (h : Accepted c R) : ∀ nm, R nm → ∀ s m, M m → ∀ la, valCa c m la nm s ≠ .fuel := by
-  intro nm hR s m hm la
-  exact calls_term_level M hM hK h (mu c s) (fun s' _ => expr_term_all M hM hK h (mu c s') s' (Nat.le_refl _))
-    nm hR s (Nat.le_refl _) m hm la
+/-- every rule call of an accepted grammar terminates. -/
+theorem calls_term_all (h : Accepted c) : ∀ nm s m la, valCa c m la nm s ≠ .fuel := by
+  intro nm s m la
+  exact calls_term_level h (mu c s)
+    (fun s' _ => (level_all h (mu c s')).1 s' (Nat.le_refl _))
+    (fun s' _ => (level_all h (mu c s')).2 s' (Nat.le_refl _))
+    (nm, skipsInside c.rules nm (isNA m)) s (Nat.le_refl _) m la rfl
 
 end
 end PestModel.V
